@@ -23,6 +23,7 @@ class Mol:
         self.bonds = {}          # frozenset({i,j}) -> order (1,2,3 or 1.5)
         self.hfix = {}           # atom -> fixed hydrogen count (copies of shared atoms)
         self.arom_rings = []     # aromatic template rings (atom ids in ring order)
+        self.quin_rings = []     # quinoid rings: conjugated, NOT aromatic (localised bonds), may be written lower-case
 
     def add_atom(self, element, charge=0, aromatic=False):
         self.atoms.append(dict(element=element, charge=charge, aromatic=aromatic))
@@ -111,6 +112,8 @@ def disjoint_union(m1, m2):
         m.bonds[frozenset((i + off, j + off))] = o
     for r in m2.arom_rings:
         m.arom_rings.append([x + off for x in r])
+    for r in m2.quin_rings:
+        m.quin_rings.append([x + off for x in r])
     for k, v in m2.hfix.items():
         m.hfix[k + off] = v
     return m, off
@@ -132,6 +135,19 @@ def kekulized(R, m):
     return k
 
 
+def lowered(m):
+    """copy of m in which every quinoid ring (localised C=C bonds, two exocyclic double bonds) is
+    WRITTEN the way SMILES allows for conjugated rings: lower-case ring atoms, no ring bond symbols.
+    The ring is not aromatic - its Kekule structure is unique - so the reader has to come back to m."""
+    k = copy.deepcopy(m)
+    for ring in m.quin_rings:
+        for i in range(6):
+            k.bonds[frozenset((ring[i], ring[(i + 1) % 6]))] = 1.5
+        for a in ring:
+            k.atoms[a]['aromatic'] = True
+    return k
+
+
 def model_graph(mj):
     """heavy-atom graph of a model molecule (json form) for isomorphism checks"""
     g = nx.Graph()
@@ -147,7 +163,7 @@ TERM_ELEMS = ['C', 'C', 'N', 'O', 'O', 'F', 'Cl', 'Br', 'S']
 
 
 def gen_mol(R, max_heavy=10, min_heavy=1, p_ring=0.5, p_arom=0.35, p_multi=0.4, p_charge=0.3,
-            hyper=True, elements=None):
+            hyper=True, elements=None, p_quin=0.0):
     m = Mol()
     n = R.randint(min(min_heavy, max_heavy), max_heavy)
     chain_elems = elements or CHAIN_ELEMS
@@ -167,6 +183,20 @@ def gen_mol(R, max_heavy=10, min_heavy=1, p_ring=0.5, p_arom=0.35, p_multi=0.4, 
             m.add_bond(attach, R.choice(cands), 1)
         return ids
 
+    def add_quin(attach):
+        # para- or ortho-quinoid six ring: two ring carbons carry an exocyclic double bond (=O, =CH2,
+        # =NH, =S), the other four pair up into two ring C=C bonds (the only Kekule structure)
+        ids = [m.add_atom('C') for _ in range(6)]
+        exo = (0, 3) if R.random() < 0.6 else (0, 1)
+        doubles = {(1, 2), (4, 5)} if exo == (0, 3) else {(2, 3), (4, 5)}
+        for a in range(6):
+            b = (a + 1) % 6
+            m.add_bond(ids[a], ids[b], 2 if (a, b) in doubles else 1)
+        for x in exo:
+            m.add_bond(ids[x], m.add_atom(R.choice(['O', 'O', 'C', 'N', 'S'])), 2)
+        m.quin_rings.append(ids)
+        m.add_bond(attach, ids[R.choice([x for x in range(6) if x not in exo])], 1)
+
     guard = 0
     while len(m.atoms) < n and guard < 200:
         guard += 1
@@ -174,6 +204,9 @@ def gen_mol(R, max_heavy=10, min_heavy=1, p_ring=0.5, p_arom=0.35, p_multi=0.4, 
         if not cands:
             break
         p = R.choice(cands)
+        if p_quin and R.random() < p_quin / 3 and len(m.atoms) + 8 <= max_heavy + 6:
+            add_quin(p)
+            continue
         if R.random() < p_arom / 3 and len(m.atoms) + 6 <= max_heavy + 4:
             add_arom(p)
             continue
@@ -192,7 +225,8 @@ def gen_mol(R, max_heavy=10, min_heavy=1, p_ring=0.5, p_arom=0.35, p_multi=0.4, 
     while R.random() < p_ring and tries < 4:
         tries += 1
         g = m.graph()
-        cands = [i for i in range(len(m.atoms)) if not m.atoms[i]['aromatic'] and m.free(i) >= 1]
+        quin = {a for r in m.quin_rings for a in r}
+        cands = [i for i in range(len(m.atoms)) if not m.atoms[i]['aromatic'] and m.free(i) >= 1 and i not in quin]
         pairs = [(i, j) for i, j in itertools.combinations(cands, 2)
                  if frozenset((i, j)) not in m.bonds and 2 <= nx.shortest_path_length(g, i, j) <= 6]
         if not pairs:
@@ -202,9 +236,11 @@ def gen_mol(R, max_heavy=10, min_heavy=1, p_ring=0.5, p_arom=0.35, p_multi=0.4, 
     # at most one double bond per non-aromatic ring system, none in small rings, no triple bonds in rings
     # (pysmiles declares any ring with alternating bonds aromatic)
     g = m.graph()
-    for comp in nx.biconnected_components(g):
-        comp = set(comp)
-        if len(comp) < 3 or all(m.atoms[i]['aromatic'] for i in comp):
+    comps = [set(c) for c in nx.biconnected_components(g)]
+    # a quinoid ring that a later ring closure fused into a larger ring system is treated as ordinary
+    m.quin_rings = [r for r in m.quin_rings if set(r) in comps]
+    for comp in comps:
+        if len(comp) < 3 or all(m.atoms[i]['aromatic'] for i in comp) or any(comp == set(r) for r in m.quin_rings):
             continue
         seen = False
         for b in sorted(m.bonds, key=sorted):
@@ -584,6 +620,8 @@ MOL_CLASSES = [
     dict(name='mixed', max_heavy=14, min_heavy=5, p_ring=0.5, p_arom=0.5, p_multi=0.4, p_charge=0.3),
     # sulfur next to aromatic rings: in the text 'S' is then often directly followed by 'c' (the letters
     # of the element Sc), likewise 'C' + 'n'/'o'/'s' would be; exercises the tokenisation of atoms
+    # quinoid rings written in lower case (conjugated but not aromatic; exocyclic C=O, C=C, C=N, C=S)
+    dict(name='quinoid', max_heavy=12, min_heavy=9, p_ring=0.2, p_arom=0.2, p_multi=0.3, p_charge=0.1, p_quin=0.9),
     dict(name='thioaryl', max_heavy=12, min_heavy=7, p_ring=0.1, p_arom=0.9, p_multi=0.2, p_charge=0.1,
          elements=['S', 'S', 'C', 'C', 'N', 'O']),
 ]
